@@ -20,6 +20,9 @@ CHECKS = {
  "C16": ("reference-model monitor (graph reachability, link/diagnostic/outline expectations) + hook step budget over exhaustive small include graphs and random larger ones",
          "Exploration, exhaustive on its small scope: all edge sets incl. self-loops over <=3 files x all roots and all 65536 edge sets over 4 files; random 3-6 file graphs with sub-directories, INCLUDE_DIR search path, shadowed names, missing targets. Termination is decided by the hook step counter, the rest by comparison with a reference reachability model.",
          "reference resolution order = including file's directory, then INCLUDE_DIR; files are tiny (one class each)", "5/C16"),
+ "C14": ("differential monitor of the public Lexer against expectations known by construction, cross-checked by an independent reference lexer; llvm-tblgen audit of the generator",
+         "Exploration: exhaustive (representative x separator x representative) triples over all keywords, all reference bang operators, all punctuation and boundary literals with 10 separators incl. nested block comments; random sequences of instances sampled from each class's regular language (quick 1.5e5, thorough 1e7 tokens); the 39 corpus files token-by-token against reflex.rs.",
+         "reflex.rs / the generator embody the reference's token grammar (LLVM TGLexer for corners); tblgen 14 audits a sample of literal instances; 0x/0b-like digit-leading identifiers and code bodies ending in '}' are not generated (LLVM corner cases)", "5/C14"),
 }
 NOT_YET = "check under construction in this session; not claimed yet"
 
